@@ -142,12 +142,17 @@ def read_parameter_file(input_file: _PathArg, parameters: Parameters) -> Paramet
     Returns:
         updated Parameters object
     """
-    # try to locate the parameter file
-    try:
-        ifile = Path(__file__).parent / input_file
-        input_ = open_file_for_reading(ifile)
-    except (IOError, FileNotFoundError, ValueError, KeyError):
+    # try to locate the parameter file: the path as given (absolute or
+    # relative to the working directory) comes first; a file of the same
+    # name in the package directory is only a fall-back
+    if Path(input_file).is_file():
         input_ = open_file_for_reading(input_file)
+    else:
+        try:
+            ifile = Path(__file__).parent / input_file
+            input_ = open_file_for_reading(ifile)
+        except (IOError, FileNotFoundError, ValueError, KeyError):
+            input_ = open_file_for_reading(input_file)
     with input_ as handle:
         for line in handle:
             parameters.parse_line(line)
